@@ -20,7 +20,7 @@ def main():
     batch = Batch("C17", {"tier": a.tier, "seed": a.seed, "prop": "C17"})
     nev = 0
     keep = 1500 if a.tier == "quick" else 12000
-    tr = [t for t in selection_traces(R, a.tier) if t[0].startswith("tour/")]
+    tr = [t for t in selection_traces(R, a.tier, part="tournament-sample") if t[0].startswith("tour/")]
     stride = max(1, len(tr) // keep)
     for (tid, evs, cfg) in tr[::stride]:
         evs = [e for e in evs if e["e"] in ("selstart", "draw", "win")]
